@@ -59,10 +59,10 @@ func multiplyUInt64(a, b uint64) UInt128Struct {
 
 // productsAreEqual returns true iff a*b == c*d (exactly) using 128-bit intermediate
 func productsAreEqual(a, b, c, d int64) bool {
-	absA := uint64(math.Abs(float64(a)))
-	absB := uint64(math.Abs(float64(b)))
-	absC := uint64(math.Abs(float64(c)))
-	absD := uint64(math.Abs(float64(d)))
+	absA := uint64(absInt(a))
+	absB := uint64(absInt(b))
+	absC := uint64(absInt(c))
+	absD := uint64(absInt(d))
 
 	mulAB := multiplyUInt64(absA, absB)
 	mulCD := multiplyUInt64(absC, absD)
